@@ -58,6 +58,14 @@ def entry_points():
         mk(f"cond_train_mean_var[{vn}]", kern, nz, assume,
            lambda gp, p, x, y, xt, key: (lambda c: (c.loc, c.variance))(gp.condition(y).gp))
         mk(f"predict_train_var[{vn}]", kern, nz, assume, lambda gp, p, x, y, xt, key: gp.predict(y, return_var=True))
+        # conditioning at the training inputs with an explicit predictive noise model / diagonal / alternative kernel
+        mk(f"cond_train_banded_pred_noise[{vn}]", kern, nz, assume,
+           lambda gp, p, x, y, xt, key: (lambda c: (c.loc, c.variance))(
+               gp.condition(y, noise=noise.Banded(jnp.ones(x.shape[0]) * (1.0 + p["d"]), 0.02 * jnp.ones((x.shape[0], 2)))).gp))
+        mk(f"cond_train_diag_pred_noise[{vn}]", kern, nz, assume,
+           lambda gp, p, x, y, xt, key: (lambda c: (c.loc, c.variance))(gp.condition(y, diag=p["d"] * jnp.ones(x.shape[0])).gp))
+        mk(f"cond_train_alt_kernel[{vn}]", kern, nz, assume,
+           lambda gp, p, x, y, xt, key: (lambda c: (c.loc, c.variance))(gp.condition(y, kernel=k_m32(p)).gp))
         mk(f"sample[{vn}]", kern, nz, assume, lambda gp, p, x, y, xt, key: gp.sample(key, (2,)))
         mk(f"predict_new_mean[{vn}]", kern, nz, assume, lambda gp, p, x, y, xt, key: gp.predict(y, xt), uses_test=True)
     # gradient of the likelihood with respect to the hyper-parameters
